@@ -183,6 +183,15 @@ LIST_PAIRS = [(0, 2, 2, 'pop_front vs try_remove(second)'), (1, 2, 2, 'try_remov
   (2, 5, 3, 'try_remove(second) vs try_remove(third): adjacent'), (0, 3, 0, 'pop_front vs push_back on an empty list')]
 LIST_QUICK = {(0, 2, 2), (0, 1, 2), (0, 0, 1), (7, 1, 2), (3, 0, 1), (0, 3, 0)}
 PROPS['C15']['harnesses'] += [H('list_%d_%d_n%d' % (a, b, n), 'C15_list.cpp', ['h_t0', 'h_t1'], 36, tier=('quick' if (a, b, n) in LIST_QUICK else 'thorough'), timeout=(3000 if (a, b, n) == (4, 2, 3) else 1500), opts=dict(params=[a, b, n], prune=0, max_visits=40, feas_seq=1, feas_at=3), desc='atomic_intrusive_list (v2 mutex waiter queue), %d initial nodes: %s' % (n, d)) for a, b, n, d in LIST_PAIRS]
+LATCH_PAIRS = [(0, 1, 0, 0, 'wait start vs set'), (0, 1, 1, 0, 'wait start vs set, one waiter queued'), (2, 1, 1, 0, 'stop of the queued waiter vs set'), (2, 1, 2, 0, 'stop of the older waiter vs set, two queued'),
+  (5, 6, 2, 0, 'stop of the newer waiter vs set+ready, two queued'), (0, 3, 0, 1, 'wait start vs reset on a set event'), (1, 3, 1, 0, 'set vs reset, one waiter queued'), (0, 4, 0, 0, 'two wait starts'),
+  (0, 2, 1, 0, 'wait start vs stop of the queued waiter'), (2, 5, 2, 0, 'two stops of adjacent waiters'), (1, 1, 1, 0, 'two concurrent set() calls, one waiter')]
+LATCH_QUICK = {(0, 1, 0, 0), (0, 3, 0, 1), (0, 2, 1, 0), (0, 4, 0, 0)}
+LATCH_DEEP = {(2, 1, 1, 0), (2, 1, 2, 0), (5, 6, 2, 0), (1, 1, 1, 0)}
+PROPS['C16']['harnesses'] += [H('latch_%d_%d_n%d_l%d' % (a, b, n, l), 'C16_latch.cpp', ['h_t0', 'h_t1'], (48 if (a, b, n, l) == (0, 1, 1, 0) else 40), tier=('quick' if (a, b, n, l) in LATCH_QUICK else 'deep' if (a, b, n, l) in LATCH_DEEP else 'thorough'), timeout=2400,
+   opts=dict(params=[a, b, n, l], prune=0, max_visits=40, feas_seq=1, feas_at=3), desc='atomic_intrusive_list latch mode (v2 manual reset event waiter list), %d queued, %s: %s' % (n, 'initially set' if l else 'initially unset', d)) for a, b, n, l, d in LATCH_PAIRS]
+PROPS['C16']['harnesses'] += [H('latch_%d_%d_n%d_l%d_p2' % (a, b, n, l), 'C16_latch.cpp', ['h_t0', 'h_t1'], 56, tier='thorough', timeout=2400, preempt=2,
+   opts=dict(params=[a, b, n, l], prune=0, max_visits=40, feas_seq=1, feas_at=3), desc='as latch_%d_%d_n%d_l%d but only schedules with at most 2 preemptions: %s' % (a, b, n, l, d)) for a, b, n, l, d in LATCH_PAIRS if (a, b, n, l) in LATCH_DEEP]
 # cross-registration: harnesses whose assertions also decide clauses of other properties
 PROPS['C04']['harnesses'] += [h for h in PROPS['C01']['harnesses'] if h['name'] in ('wa_race_min', 'sw_race_min')]
 PROPS['C05']['harnesses'] += [h for h in PROPS['C04']['harnesses'] if h['name'] == 'wa_inline_cancel'] + \
